@@ -143,16 +143,28 @@ func (g *a7Gen) special(name string) *a7Node {
 	case data.NodeTypeSymlink:
 		n.LinkTarget = h.Pick([]string{"a", "../x", "/etc/passwd", "dir/sub", "tärget"})
 		n.Links = 1
-		n.Mode = 0o777
+		n.Mode = os.ModeSymlink | 0o777
 		if h.Intn(5) == 0 {
 			n.Links, n.DeviceID = 2, 1
 		}
 	case data.NodeTypeDev, data.NodeTypeCharDev:
 		n.Device = uint64(h.Intn(1000))
 		n.Links = 1
+		n.Mode |= os.ModeDevice
+		if n.Type == data.NodeTypeCharDev {
+			n.Mode |= os.ModeCharDevice
+		}
 	default:
 		// fifo, socket, irregular: the archiver stores no link count and keeps the device id
 		n.DeviceID = uint64(1 + h.Intn(2))
+		switch n.Type {
+		case data.NodeTypeFifo:
+			n.Mode |= os.ModeNamedPipe
+		case data.NodeTypeSocket:
+			n.Mode |= os.ModeSocket
+		case data.NodeTypeIrregular:
+			n.Mode |= os.ModeIrregular
+		}
 	}
 	if g.Weird {
 		switch h.Intn(6) {
